@@ -219,6 +219,9 @@ func (x *explorer) runPath(pool []*Solver, prefix []decision) {
 				end, detail = "cut", r.reason
 			case pathEnd:
 				end, detail = "infeasible", r.reason
+				if r.reason == "assertion fails on the whole path" {
+					end = "asserted"
+				}
 			case exitPanic:
 				end = "exit"
 			case unwindOverflow:
